@@ -1,6 +1,7 @@
 package interp
 
 import (
+	"runtime"
 	"fmt"
 	"go/types"
 	"os"
@@ -33,6 +34,7 @@ type Config struct {
 	// only part of its oracle to the property being checked, and a violation of
 	// the rest must not cut the path short before the relevant assertions.
 	OnlyLabels []string
+	MaxHeap    uint64 // bytes of Go heap after which the exploration is truncated (default 12 GiB)
 }
 
 // Machine is the immutable, shared part: the SSA program built from the
@@ -381,6 +383,22 @@ func (m *Machine) Explore(pkgPath, entry string) (*RunResult, error) {
 				if !m.Cfg.Deadline.IsZero() && time.Now().After(m.Cfg.Deadline) && (len(queue) > 0 || inflight > 0) {
 					rr.Truncated = true
 					stop = true
+				}
+				// memory guard: a runaway fork (e.g. a client-declared 16-bit count
+				// driving a loop on a changed tree) must end as "truncated", never
+				// as an out-of-memory kill of the check
+				if rr.Paths%100 == 0 || len(res.Forks) > 1000 {
+					var ms runtime.MemStats
+					runtime.ReadMemStats(&ms)
+					lim := m.Cfg.MaxHeap
+					if lim == 0 {
+						lim = 12 << 30
+					}
+					if ms.HeapAlloc > lim && (len(queue) > 0 || inflight > 0) {
+						rr.Truncated = true
+						stop = true
+						queue = nil
+					}
 				}
 				cond.Broadcast()
 				mu.Unlock()
